@@ -137,6 +137,34 @@ def worker(case, led):
                       (name, n, method, "split"), {"method": method}, {"model": name, "nsites": n, "method": method, "dt": dt, "seed": seed})
         except Exception as e:
             led.check(False, f"post:Mps.evolve[{method}]:total", f"Mps._evolve_{method}", f"split run raised {type(e).__name__}: {e}", (name, n, method, "split"), {"method": method}, {})
+        # call-history independence of one object: evolving the same configured object twice gives the same state, and leaves its configuration as it was
+        x = 0.2
+        dt = x / hn
+        extra = {"tdvp_cmf_c_trapz": True} if (method == "tdvp_mu_cmf" and seed % 2) else {}
+        try:
+            m = a.copy()
+            Dn.set_evolve(m, method, M=64)
+            for k_, v_ in extra.items():
+                setattr(m.evolve_config, k_, v_)
+            cfg0 = {k: repr(v) for k, v in vars(m.evolve_config).items()}
+            r1 = m.evolve(H, dt)
+            cfg1 = {k: repr(v) for k, v in vars(m.evolve_config).items()}
+            r2 = m.evolve(H, dt)
+            r3 = m.evolve(H, dt / 2)
+            d = np.linalg.norm(S.dense(r1) - S.dense(r2))
+            rep = {"model": name, "nsites": n, "method": method, "dt": dt, "seed": seed, "extra": extra, "calls": "m.evolve(H, dt) twice on the same object m"}
+            led.check(d <= 1e-10 * max(1.0, nrm), f"post:Mps.evolve[{method}]:same_object_same_result", f"Mps._evolve_{method}",
+                      f"two evolutions of one object over the same dt differ by {d:.3e}", (name, n, method, "reuse"), {"method": method}, rep)
+            changed = sorted(k for k in cfg0 if cfg0[k] != cfg1.get(k) and k not in ("guess_dt",))
+            led.check(not changed, f"frame:Mps.evolve[{method}]:input_configuration", f"Mps._evolve_{method}",
+                      f"evolve changed the scheme configuration of its input object: {[(k, cfg0[k], cfg1.get(k)) for k in changed]}", (name, n, method, "reuse-cfg"), {"method": method}, rep)
+            ref = scipy.linalg.expm(-1j * dt / 2 * Hd) @ v0
+            err = np.linalg.norm(S.dense(r3) - ref)
+            bnd = bound_for(method, x / 2, m, n, nrm)
+            led.check(err <= bnd, f"post:Mps.evolve[{method}]:error_within_scheme_bound_on_reuse", f"Mps._evolve_{method}",
+                      f"third evolution of the same object: |psi - exp(-iHt/2)psi0| = {err:.3e} > bound {bnd:.3e}", (name, n, method, "reuse-acc"), {"method": method}, rep)
+        except Exception as e:
+            led.check(False, f"post:Mps.evolve[{method}]:total", f"Mps._evolve_{method}", f"re-use run raised {type(e).__name__}: {e}", (name, n, method, "reuse"), {"method": method, "reuse": True}, {})
         # order check for CMF: halving dt reduces the error by at least 2^2 * 0.7 (one step vs one step of half size, compared per unit time: global order 2)
         if method == "tdvp_mu_cmf":
             errs = []
@@ -170,6 +198,21 @@ def worker(case, led):
                       f"adaptive stepping error {err:.3e} (adaptive_rtol {m.evolve_config.adaptive_rtol})", key, {"method": method}, rep)
         except Exception as e:
             led.check(False, f"post:Mps.evolve[{method}]:total", f"Mps._evolve_{method}", f"adaptive run raised {type(e).__name__}: {e}", key, {"method": method, "adaptive": True}, rep)
+        if method.startswith("prop_and_compress"):
+            # a deliberately too large initial step guess forces rejected sub-steps: a rejected trial must leave no trace in the state
+            dt = 3.0 / hn
+            ref = scipy.linalg.expm(-1j * dt * Hd) @ v0
+            key = (name, n, method, "adaptive-rejections")
+            rep = {"model": name, "nsites": n, "method": method, "dt": dt, "seed": seed, "adaptive": True, "guess_dt": dt, "extra": extra}
+            try:
+                r, m = evolve(a, H, dt, method, adaptive=True, guess_dt=dt, **extra)
+                err = np.linalg.norm(S.dense(r) - ref)
+                led.check(err <= 20 * m.evolve_config.adaptive_rtol * np.linalg.norm(v0) + bound_for(method, 0.2, m, n, np.linalg.norm(v0)),
+                          f"post:Mps.evolve[{method}]:adaptive_with_rejected_steps", f"Mps._evolve_{method}",
+                          f"|H|T=3 with initial guess_dt=T (first trials are rejected): error {err:.3e} (adaptive_rtol {m.evolve_config.adaptive_rtol})", key, {"method": method}, rep)
+            except Exception as e:
+                led.check(False, f"post:Mps.evolve[{method}]:total", f"Mps._evolve_{method}", f"adaptive run with rejections raised {type(e).__name__}: {e}", key,
+                          {"method": method, "adaptive": True}, rep)
     elif kind == "conservation":
         _, name, n, seed, tier = case
         rng = np.random.default_rng([seed, n, 929, sum(map(ord, name))])
@@ -323,6 +366,28 @@ def worker(case, led):
             led.check(err <= bnd, f"post:Mps.evolve[{method}]:time_dependent_hamiltonian", f"Mps._evolve_{method}", f"error {err:.3e} > {bnd:.3e}", key, {"method": method}, rep)
         except Exception as e:
             led.check(False, f"post:Mps.evolve[{method}]:total", f"Mps._evolve_{method}", f"time-dependent run raised {type(e).__name__}: {e}", key, {"method": method, "timedep": True}, rep)
+        if method == "prop_and_compress_tdrk":
+            # adaptive sub-stepping with a time-dependent Hamiltonian: the stage times must be absolute times of the call, not of the sub-step
+            T = 3 * dt
+            v = S.dense(a).copy()
+            nsub = 600
+            for k in range(nsub):
+                tm = (k + 0.5) * T / nsub
+                v = scipy.linalg.expm(-1j * (T / nsub) * (1.0 + 0.5 * tm / dt) * H1d) @ v
+            for solver in ("RKF45", "Cash-Karp45"):
+                key = (name, n, method, "timedep-adaptive", solver)
+                rep = {"model": name, "nsites": n, "method": method, "T": T, "seed": seed, "H(t)": "(1 + 0.5 t/dt) H", "adaptive": True, "rk_solver": solver, "guess_dt": T / 4}
+                try:
+                    m = a.copy()
+                    Dn.set_evolve(m, method, M=64, adaptive=True, guess_dt=T / 4, rk_solver=solver)
+                    r = m.evolve(mpo_t, T)
+                    err = np.linalg.norm(S.dense(r) - v)
+                    bnd = 50 * m.evolve_config.adaptive_rtol * np.linalg.norm(v) + 1e-6
+                    led.check(err <= bnd, f"post:Mps.evolve[{method}]:time_dependent_hamiltonian_adaptive", f"Mps._evolve_{method}",
+                              f"adaptive run over T with H(t): error {err:.3e} > {bnd:.3e}", key, {"method": method}, rep)
+                except Exception as e:
+                    led.check(False, f"post:Mps.evolve[{method}]:total", f"Mps._evolve_{method}", f"adaptive time-dependent run raised {type(e).__name__}: {e}", key,
+                              {"method": method, "timedep": True, "adaptive": True}, rep)
 
 
 def check(run):
